@@ -6,3 +6,47 @@ From Rodbus Require Import Gen.FfiTables.
 
 Definition cabi_callback_exception (c : N) : string :=
   name_ffi_request_error (exception_to_ffi (exception_from_u8 c)).
+
+(* ------------------------------------------------------------------ C03: requests through the extern "C" layer *)
+(* ffi/rodbus-ffi/src/client.rs rodbus_client_channel_*: reads build the range with
+   AddressRange::try_from(range.start, range.count)? (ParamError before anything else) and call
+   FfiChannel::read_*; single writes convert the value struct and call FfiChannel::write_single_*;
+   write-multiple calls WriteMultiple::from(start, <values of the caller's list>)? and
+   FfiChannel::write_multiple_*. How the caller's list is borrowed and how its values are handed
+   over is regenerated into Gen/FfiTables.v `list_args` (function, borrow, expression). *)
+From Coq Require Import List Bool.
+From Rodbus Require Import Base.Outcome Base.ClientTypes Model.Format Model.Range Model.ClientRequest Model.ClientPaths Model.ClientSession.
+Import ListNotations.
+Local Open Scope N_scope.
+
+(* the request a C-ABI call puts into the command queue *)
+Definition cabi_queued (c : call) : option request :=
+  let via_ffi c' := match submit_via ViaFfi c' with Queued r => Some r | Rejected _ => None end in
+  match c with
+  | CReadCoils s n => match try_from s n with inl _ => None | inr rg => via_ffi (CReadCoils (fst rg) (snd rg)) end
+  | CReadDiscreteInputs s n => match try_from s n with inl _ => None | inr rg => via_ffi (CReadDiscreteInputs (fst rg) (snd rg)) end
+  | CReadHoldingRegisters s n => match try_from s n with inl _ => None | inr rg => via_ffi (CReadHoldingRegisters (fst rg) (snd rg)) end
+  | CReadInputRegisters s n => match try_from s n with inl _ => None | inr rg => via_ffi (CReadInputRegisters (fst rg) (snd rg)) end
+  | _ => via_ffi c
+  end.
+
+(* does rodbus_client_channel_<fn> leave the caller's list as it was? (borrowed shared, values cloned) *)
+Definition list_kept (fn : string) : bool :=
+  match find (fun x => String.eqb (fst (fst x)) fn) list_args with
+  | Some (_, borrow, expr) => String.eqb borrow "as_ref" && String.eqb expr "items.inner.clone()"
+  | None => false
+  end.
+
+(* a caller-owned list through a sequence of add / write steps: the calls that reach FfiChannel.
+   If the function does not keep the list (e.g. it moves the values out), the list is empty afterwards. *)
+Fixpoint cabi_list_calls {A} (kept : bool) (mk : N -> list A -> call) (held : list A) (steps : list (list A + N * N)) : list (path * N * call) :=
+  match steps with
+  | [] => []
+  | inl vs :: rest => cabi_list_calls kept mk (held ++ vs) rest
+  | inr (uid, start) :: rest => (ViaFfi, uid, mk start held) :: cabi_list_calls kept mk (if kept then held else []) rest
+  end.
+
+Definition cabi_coil_list_wire (f : framing) (steps : list (list bool + N * N)) : list (list N) :=
+  session_wire f 0 (cabi_list_calls (list_kept "write_multiple_coils") CWriteMultipleCoils [] steps).
+Definition cabi_register_list_wire (f : framing) (steps : list (list N + N * N)) : list (list N) :=
+  session_wire f 0 (cabi_list_calls (list_kept "write_multiple_registers") CWriteMultipleRegisters [] steps).
